@@ -353,7 +353,12 @@ impl<K, V> TreeBin<K, V> {
         let mut waiting = false;
         let mut state: i64;
         loop {
-            state = self.lock_state.load(Ordering::Acquire);
+            // NOTE: this must be `SeqCst`: once we have announced ourselves (`WAITER` bit and the
+            // `waiter` handle, both `SeqCst`), the last reader either sees our handle and unparks
+            // us, or its `SeqCst` decrement of `lock_state` is ordered before this load, which
+            // then must observe that there are no readers left. With a weaker load we could read a
+            // stale reader count here and park without anyone left to wake us up.
+            state = self.lock_state.load(Ordering::SeqCst);
             if state & !WAITER == 0 {
                 // there are no writing or reading threads
                 if self
